@@ -81,8 +81,17 @@ Fixpoint hx (s : string) : bytes :=
   | String a (String b r) => (hexval a * 16 + hexval b) :: hx r
   | _ => []
   end.
-(* compact byte-string literal used by generated cases: n bytes, big-endian value v *)
-Definition bz (n : nat) (v : Z) : bytes := be_bytes n v.
+(* compact byte-string literal used by generated cases: n bytes, big-endian value v.
+   One pass over the bits of v (repeated division by 256 is quadratic for long strings). *)
+Fixpoint pos_bytes_le (p : positive) (acc w : Z) : bytes :=
+  match p with
+  | xH => [acc + w]
+  | xO q => if w =? 128 then acc :: pos_bytes_le q 0 1 else pos_bytes_le q acc (2 * w)
+  | xI q => if w =? 128 then (acc + w) :: pos_bytes_le q 0 1 else pos_bytes_le q (acc + w) (2 * w)
+  end.
+Definition bz (n : nat) (v : Z) : bytes :=
+  let le := match v with Zpos p => pos_bytes_le p 0 1 | _ => [] end in
+  repeat 0 (n - length le) ++ rev le.
 Fixpoint str_bytes (s : string) : bytes :=
   match s with String a r => Z.of_nat (nat_of_ascii a) :: str_bytes r | EmptyString => [] end.
 
